@@ -107,6 +107,8 @@ type TPkt struct {
 	Retried           bool // a timed-out forward hop that was re-sent in the same transaction
 	GaveUp            bool // forward hop whose failure was turned into an error ack for its parent
 	TimeoutRefused    int
+	AckRefused        int
+	AckRefusedLog     string
 	TimeoutRefusedLog string
 	WantFinal         string // root of a forward route: the final receiver named in the memo
 	WantHops          int    // root of a forward route: number of forward hops named in the memo
@@ -183,7 +185,7 @@ type Topology struct {
 	Chains int
 	Links  [][2]int
 	V2On   map[int]bool // link index -> also create an IBC v2 client pair
-	// Desync creates i dummy clients on chain i first, so that the two ends of a link carry different client ids
+	// Desync creates a few dummy clients on some chains first, so that the two ends of a link carry different client ids
 	// (ibctesting otherwise hands out the same ids on both chains)
 	Desync bool
 }
@@ -205,8 +207,11 @@ func NewSim(c *kit.Check, r *kit.Rng, topo Topology) *Sim {
 	w := kit.NewWorld(c.T, topo.Chains)
 	s := &Sim{C: c, W: w, Ch: w.Chains, R: r, Focus: c.Prop, broken: map[string]bool{}, grants: map[string]bool{}}
 	if topo.Desync {
+		// offsets (2,0,0): in four of the six lane directions the counterparty's client id then equals the id of ANOTHER lane
+		// of the sending chain, so a refund computed from the wrong identifier lands in a real sibling escrow account
+		offsets := []int{2, 0, 0, 1}
 		for i := range s.Ch {
-			for j := 0; j < i; j++ {
+			for j := 0; j < offsets[i%len(offsets)]; j++ {
 				if err := ibctesting.NewPath(s.Ch[i].TestChain, s.Ch[(i+1)%len(s.Ch)].TestChain).EndpointA.CreateClient(); err != nil {
 					panic(kit.Abort{Msg: err.Error()})
 				}
